@@ -357,6 +357,7 @@ class C12:
                 rm_t, rm_s = r["rm"] if r["rm"] else (None, None)
                 limit = t_end if rm_t is None else min(rm_t, t_end)
                 prev_k = 0
+                amb = False          # the previous call came after deadline prev_k + 1 too and may have served that one instead
                 bad = False
                 for n_call, (ct, cs) in enumerate(r["calls"]):
                     if rm_s is not None and cs > rm_s:
@@ -380,6 +381,12 @@ class C12:
                           % (r["cb"], r["id"], ct - 1000, ct - r["t"], p), shape)
                         bad = True
                         break
+                    was_amb, amb = amb, False
+                    if k - 1 > prev_k and justified(r["t"] + (k - 1) * p, ct):
+                        # deadline k-1 is still owed and a busy job thread explains why its call comes only now, after deadline k:
+                        # this is the (late) call for k-1 - the one for k may follow at once - or already the one for k
+                        k -= 1
+                        amb = True
                     if k <= prev_k:
                         V("early", "cb%d registration %d (period %g, registered %.9f) called again at t=%.9f for the period already "
                           "served (call #%d): early or drifting" % (r["cb"], r["id"], p, r["t"] - 1000, ct - 1000, n_call + 1), shape)
@@ -392,6 +399,8 @@ class C12:
                         bad = True
                         break
                     for ks in range(prev_k + 1, k):          # skipped periods must be explained by a busy job thread
+                        if was_amb and ks == prev_k + 1:
+                            continue                         # (may have been served by the previous call, see above)
                         if not justified(r["t"] + ks * p, ct):
                             V("missing", "cb%d registration %d (period %g): the call due at t=%.6f never happened (next call at "
                               "t=%.6f)" % (r["cb"], r["id"], p, r["t"] + ks * p - 1000, ct - 1000), shape)
@@ -402,7 +411,7 @@ class C12:
                     prev_k = k
                 if not bad and (r["per"] or not r["calls"]):
                     # calls still owed at the end of the observation / at removal
-                    ks = prev_k + 1
+                    ks = prev_k + (2 if amb else 1)
                     d_next = r["t"] + ks * p
                     if d_next + L + tol < limit and not justified(d_next, limit):
                         V("missing", "cb%d registration %d (period %g, %s, registered t=%.6f) has %d calls; the call due at "
